@@ -468,6 +468,16 @@ func (n *vfC11nNode) Addr() string { return fmt.Sprintf("127.0.0.1:%d", n.Port) 
 
 // vfC11nStart launches a node process and waits for its ready line.
 func vfC11nStart(base string, cfg vfC11nCfg) (*vfC11nNode, error) {
+	var n *vfC11nNode
+	err := vfRetryPorts(func() error {
+		var e error
+		n, e = vfC11nStart1(base, cfg)
+		return e
+	})
+	return n, err
+}
+
+func vfC11nStart1(base string, cfg vfC11nCfg) (*vfC11nNode, error) {
 	cfg.Dir = filepath.Join(base, cfg.Name)
 	if cfg.KeepDir == "" {
 		cfg.KeepDir = filepath.Join(base, cfg.Name+".keep")
@@ -617,7 +627,7 @@ func (n *vfC11nNode) Crashed(base string) (bool, string) {
 // ------------------------------------------------------------------ controller side: clients over TCP
 
 func vfC11nDialBinary(addr string, name string, tag byte) (*vfBinConn, error) {
-	c, err := net.DialTimeout("tcp", addr, 5*time.Second)
+	c, err := vfDialLoopback(addr, 5*time.Second)
 	if err != nil {
 		return nil, err
 	}
@@ -628,7 +638,7 @@ func vfC11nDialBinary(addr string, name string, tag byte) (*vfBinConn, error) {
 }
 
 func vfC11nDialText(addr string, name string) (*vfTextConn, error) {
-	c, err := net.DialTimeout("tcp", addr, 5*time.Second)
+	c, err := vfDialLoopback(addr, 5*time.Second)
 	if err != nil {
 		return nil, err
 	}
@@ -705,7 +715,7 @@ type vfC11nProxy struct {
 }
 
 func vfC11nNewProxy(target string) (*vfC11nProxy, error) {
-	ln, err := net.Listen("tcp", "127.0.0.1:0")
+	ln, err := vfListenLoopback()
 	if err != nil {
 		return nil, err
 	}
@@ -923,7 +933,7 @@ func (p *vfC11nProxy) serve(down net.Conn) {
 	p.mu.Lock()
 	target := p.target
 	p.mu.Unlock()
-	up, err := net.DialTimeout("tcp", target, 5*time.Second)
+	up, err := vfDialLoopback(target, 5*time.Second)
 	if err != nil {
 		_ = down.Close()
 		return
